@@ -36,6 +36,7 @@ def check(ctx):
         samples=results["fault"]["samples"][:2] + results["dfs"]["samples"][:1],
         traces_validated_against_impl=len(recs), distinct_api_histories_decided_by_tlc=getattr(ctx, "register_histories", 0), runs_by_mode={t: r["counters"] for t, r in results.items()},
         bug_configs_rejected_by_tlc=bugs, exhaustive=(results["dfs"]["counters"].get("dfs_truncated", 0) == 0))
+    settle(ctx, violations)
     return conclude(ctx, violations, "model_checking", coverage, ASSUME)
 
 
